@@ -174,10 +174,12 @@ func (h *payloadHook) Before(c *vos.Call) {
 	h.mu.Lock()
 	defer h.mu.Unlock()
 	base := filepath.Base(c.Path)
-	if i := strings.Index(base, ".tmp"); i >= 0 {
-		base = base[:i+4] // temporary names carry random digits
+	if a := vos.Alias(base); a != base {
+		base = a // a temporary made by CreateTemp: its pattern without the random digits
+	} else if i := strings.Index(base, ".tmp"); i >= 0 {
+		base = base[:i+4]
 	}
-	isDB := strings.HasPrefix(base, "db")
+	isDB := !strings.HasPrefix(base, "audit") // everything but the audit log (which names secrets by design) is the database or one of its temporaries
 	switch c.Op {
 	case "write", "writeat":
 		h.n++
@@ -253,7 +255,7 @@ func TestCheck(t *testing.T) {
 			for _, e := range ents {
 				data, _ := os.ReadFile(filepath.Join(dir, e.Name()))
 				scans++
-				if k := sc.scan(data, strings.HasPrefix(e.Name(), "db")); k != "" {
+				if k := sc.scan(data, !strings.HasPrefix(e.Name(), "audit")); k != "" {
 					viol("leak-in-file:"+e.Name(), fmt.Sprintf("file %s contains %s", e.Name(), k))
 				}
 				fi, _ := e.Info()
